@@ -82,6 +82,15 @@ add("C11", "exploration",
     "Trusted: Python range/itertools orders as documented in streams.rs/BUILTINS.md, nlrun serialiser, Hypothesis. Length <= 5000.",
     "DESIGN.md §3 C11")
 
+add("C12", "exploration",
+    "property-based testing (Hypothesis): generated pattern x value x binding-context cases against a reference matcher; multi-arm switch; stateful histories on annotated variables; type classification table",
+    "Patterns to depth 3 (names, _, literals, sequences with one splat and trailing defaults, or, and, annotations incl. struct and "
+    "satisfying, struct and operator patterns .+ +. + - / chained comparison) with values built to match or to miss by one feature, in "
+    "switch / := / = / lambda / for / catch; the first matching arm runs; `x is T` holds after every completed statement on an annotated "
+    "variable (assign, every, swap, destructuring, operator- and index-assignment) and a value of type T is never refused; v is type(v), "
+    "v is anything, T(v) is T over the value pool.",
+    "Trusted: the reference matcher / type predicate written from the statement, nlrun serialiser, Hypothesis.",
+    "DESIGN.md §3 C12")
 add("C13", "exploration",
     "property-based testing (Hypothesis) against an executable specification: one Python definition per sequence function",
     "66 function forms x input kinds (list/vector/bytes/string/stream) x lengths 0..64 with repeats x callback families (incl. "
